@@ -339,6 +339,11 @@ func (k Keeper) ResetMetaDuration(ctx sdk.Context, meta *types.Metadata) {
 		}
 	}
 
+	if expiredHeight < uint64(ctx.BlockHeight()) {
+		// no live shard left: the paid lifetime ends now
+		expiredHeight = uint64(ctx.BlockHeight())
+	}
+
 	newDuration := expiredHeight - meta.CreatedAt
 
 	if meta.Duration != newDuration {
